@@ -45,6 +45,15 @@ model requires nothing of it; everything that is defined (the other bins, the ja
 patch) is compared as before (Props: C04_masked_objects_weigh_nothing, C04_cancelling_cell_leaves_total,
 C04_or_count_agrees_weighted / C04_positive_weights_no_weightless_cell / C04_or_count_refuted: "sum of weights or else the
 number of objects" is indistinguishable on positive weights and wrong on a populated weightless cell).
+(g) container algebra (props/c04_alg.py): the estimator applied to CorrFuncs that are the RESULT of +, sum(), +=, * scalar, .bins[...] /
+.patches[...], to_file / from_file, pickle, copy / deepcopy, from_dict(to_dict()) - random expression trees over hand-built CorrFuncs with dd
+and EVERY non-empty subset of {dr, rd, rr} (all profiles above) and over the CorrFuncs of several scales of real measurements; the
+expression is evaluated role by role in Coq on the raw arrays of the leaves (Model/CorrAlgebra.v: cexpr, eval, c04_alg_case, c04_alg_nz_case):
+the result must hold the same terms in the same roles (dd stays dd, rr stays rr, missing stays missing), store the role-wise combined
+arrays, and sample() / RedshiftData.from_corrfuncs must be the documented estimator of the combined counts; operands that hold different
+roles or different sums of weights must be refused (Props: C04_algebra_expression_keeps_roles, C04_algebra_sum_refuses_mismatch,
+C04_sample_of_sum, C04_sample_of_multiple, C04_term_of_sum / _multiple / _bin_selection, C04_positional_rebinding_id_iff_prefix /
+_agrees_prefix / _refuted: re-binding the present counts positionally is invisible on dd+dr, dd+dr+rd and complete CorrFuncs).
 (b) symbolic traces of landy_szalay, davis_peebles, NormalisedCounts.sample_patch_sum,
 RedshiftData.from_corrdata, HistData.normalised, RedshiftData.normalised are re-proved equal to
 the documented formulas by `ring` (numerator / denominator / radicand separately) on every run.
@@ -55,6 +64,7 @@ import numpy as np
 
 from lib import floatq as fq
 from props import _jk_common as jk
+from props import c04_alg
 from props import c04_meas
 
 ALLOWED_AXIOMS = ["sig_forall_dec", "sig_not_dec", "functional_extensionality_dep", "classic"]  # only under C04_nz_sqrt_form / _unique (reals)
@@ -84,6 +94,11 @@ ASSUMPTIONS = [
     "their centre, so nearest-centre assignment is the named patch; the number of records per patch is asserted); weights are dyadic with "
     "at most 8 bits, of either sign or zero; a refusal (InconsistentPatchesError) is "
     "counted, not reported, and more than 20% refusals break an obligation; max_workers = 1 (the order of arrival of patch-pair results is C10's)",
+    "container algebra: both operands of every generated sum hold the same roles, binning, patches and sums of weights (other operands are "
+    "generated only as refusals: an exception is required, its type is not); selections keep >= 2 patches (distinct) and >= 1 bin, bins are "
+    "selected contiguously in ascending order; scalars are dyadic (python / numpy floats and ints), so every stored number of the result "
+    "is exact and must EQUAL the model value; sum() is called with a start value (CorrFunc has no __radd__: sum(cfs) without one raises "
+    "TypeError on the unchanged tree); n(z) of expressions is compared with the exact model values under the first-order bound of the measurements",
     "call histories consist of the public methods listed in _jk_common.CF_OBS / SD_OBS with valid arguments and of "
     "set_patch_pair with in-range patch indices and one value per bin; arrays handed out by the containers are only "
     "read by the harness, never written; a call that raises is recorded and skipped",
@@ -98,7 +113,10 @@ RULE = ("cases = (subset of dr/rd/rr, auto|cross, bins, patches, all array entri
         "CorrFunc and one per redshift estimate; non-trivial when the output is finite and some (patch, bin) cell is empty in one sample of a "
         "container and populated in its partner (the inputs on which a stored weight could depend on the partner sample) or some populated "
         "cell weighs exactly nothing in a bin whose total weight is not zero (histogram meas:populated-cell-of-total-weight-zero-...); "
-        "weight cases (kind label .../mag:weights:<profile>) are hand-built containers whose per-patch weights are zero, negative or cancelling")
+        "weight cases (kind label .../mag:weights:<profile>) are hand-built containers whose per-patch weights are zero, negative or cancelling; "
+        "algebra cases (kind alg/<built|measured>/<auto|cross>/<roles>/<profile>) = (leaf arrays, expression tree with all index expressions and "
+        "scalars), non-trivial when the sampled result is finite (or no estimator is defined for the roles: 'raises' is compared); histogram "
+        "alg-op/* counts the operations performed, alg-tree-with/* the trees containing each kind of node")
 
 
 def est_defined(sub):
@@ -774,6 +792,8 @@ def traces(ctx):
 # ----------------------------------------------------------------------------- entry points
 def run(ctx):
     rng = ctx.rng
+    # container algebra over hand-built CorrFuncs first (needs no catalogs; evaluated in Coq at once)
+    c04_alg.run_built(ctx)
     traces(ctx)
     ctx.log("traces done")
     b_corr = jk.Batch(ctx, "Cases_C04_corr", shard=30)
@@ -828,7 +848,8 @@ def run(ctx):
     histories(ctx, b_hist, b_nzh, b_normh)
     ctx.log("hand-built containers and histories done")
     b_meas, b_meas_nz = c04_meas.run_measured(ctx)
-    batches = (b_corr, b_nz, b_norm, b_hist, b_nzh, b_normh, b_meas, b_meas_nz)
+    b_algm, b_algm_nz = c04_alg.run_measured(ctx)
+    batches = (b_corr, b_nz, b_norm, b_hist, b_nzh, b_normh, b_meas, b_meas_nz, b_algm, b_algm_nz)
     ctx.log("implementation runs done; evaluating %d cases in Coq" % sum(len(b.items) for b in batches))
     for b in batches:
         b.run()
@@ -839,6 +860,9 @@ def replay(ctx, body):
     r = body.get("replay", body)
     if r.get("kind") == "meas":
         c04_meas.replay(ctx, r)
+        return
+    if str(r.get("kind", "")).startswith("alg"):
+        c04_alg.replay(ctx, r)
         return
     spec, kind = r["spec"], r["kind"]
     b, bn = jk.Batch(ctx, "Replay_C04"), jk.Batch(ctx, "Replay_C04_norm")
